@@ -17,6 +17,10 @@ def handleLine (line : String) : String :=
     match handleO rest with
     | some v => s!"{id} {prop} {v.render}"
     | none => s!"{id} {prop} BAD unparsable-case"
+  | "SUB" :: id :: prop :: rest =>
+    match handleSub rest with
+    | some v => s!"{id} {prop} {v.render}"
+    | none => s!"{id} {prop} BAD unparsable-case"
   | "PAIR" :: id :: prop :: rest =>
     match handlePair prop rest with
     | some v => s!"{id} {prop} {v.render}"
